@@ -81,6 +81,8 @@ def str_method(eng, base, attr, node):
                 pass
         if attr == 'split' and not args and not kwargs:
             return segstr.split_whitespace(eng_, base)
+        if attr == 'split' and args and args[0] is None and not kwargs and (len(args) == 1 or isinstance(args[1], int)):
+            return segstr.split_whitespace(eng_, base, args[1] if len(args) > 1 else -1)
         if attr == 'replace' and len(args) == 2 and isinstance(args[0], str) and isinstance(args[1], str) and len(args[0]) >= 1:
             try:
                 return segstr.replace(eng_, base, args[0], args[1])
